@@ -18,6 +18,8 @@ func AppendNode(n1, n2 parsley.Node) parsley.Node {
 	}
 	switch n := n1.(type) {
 	case NodeList:
+		// n1 may be shared (e.g. a memoized result), never write into its backing array
+		n = n[:len(n):len(n)]
 		n.Append(n2)
 		return n
 	default:
